@@ -57,3 +57,17 @@ Definition py_rec_set (r : orec) (field : Z) (e : Z) : orec :=
 (* '<text>%o' % e *)
 Definition py_fmt_oct (text : string) (e : Z) : string :=
   String.append text (if e <? 0 then String "-" (PyStr.str_of (PyStr.fmt_nat 8 false (- e))) else PyStr.str_of (PyStr.fmt_nat 8 false e)).
+
+(* ---- netaddr/eui/ieee.py load_index (unit pysrc_ieeeg_gen.v) ---- *)
+(* index.setdefault(k, []) ; index[k].append(x) on an index dict *)
+Definition py_eidx_setdefault (d : eindex) (k : Z) : eindex := if py_eidx_mem d k then d else (d ++ [(k, [])])%list.
+Fixpoint py_eidx_append (d : eindex) (k : Z) (x : Z * Z) : outcome eindex :=
+  match d with
+  | [] => Raise KeyError
+  | (k', l) :: t => if k' =? k then Ok ((k', (l ++ [x])%list) :: t) else do t' <- py_eidx_append t k x; Ok ((k', l) :: t')
+  end.
+(* [f(x) for x in xs] where f can raise: left to right, the first exception wins *)
+Fixpoint py_map_og {A B} (f : A -> outcome B) (l : list A) : outcome (list B) :=
+  match l with [] => Ok [] | x :: r => do y <- f x; do ys <- py_map_og f r; Ok (y :: ys) end.
+(* a, b, c = <sequence>: ValueError unless it has exactly three items *)
+Definition py_triple_of_list (l : list Z) : outcome (Z * Z * Z) := match l with [a; b; c] => Ok (a, b, c) | _ => Raise ValueError end.
